@@ -150,6 +150,21 @@ func newFsrv(kind string) *fsrv {
 	s.fault.Store("")
 	s.cert, _ = testutils.GenerateCertificate("localhost")
 	switch kind {
+	case "udp-blackhole":
+		uc, err := net.ListenUDP("udp", &net.UDPAddr{IP: net.IPv4(127, 0, 0, 1)})
+		if err != nil {
+			panic(err)
+		}
+		s.addr = uc.LocalAddr().String()
+		s.closer = append(s.closer, func() { uc.Close() })
+		go func() {
+			buf := make([]byte, 65535)
+			for {
+				if _, _, err := uc.ReadFromUDP(buf); err != nil {
+					return
+				}
+			}
+		}()
 	case "udp":
 		uc, err := net.ListenUDP("udp", &net.UDPAddr{IP: net.IPv4(127, 0, 0, 1)})
 		if err != nil {
